@@ -171,6 +171,25 @@ static void codec_case(const Case &c, FILE *out)
       fprintf(out, "\"len2\":%d,\"text2\":\"%s\",", d3.len, json_escape(d3.text).c_str());
     }
   }
+  else if (kind == "dec")
+  {
+    // several "<address> <hex bytes>" lines: the bytes are placed at the address and one instruction is decoded there
+    std::vector<std::string> lines = split(c.body, '\n');
+    fprintf(out, "\"res\":[");
+    for (size_t i = 0; i < lines.size(); i++)
+    {
+      std::vector<std::string> f = split(lines[i], ' ');
+      if (f.size() < 2) { fprintf(out, "%s[-99,\"\"]", i == 0 ? "" : ","); continue; }
+      uint32_t a = (uint32_t)strtoul(f[0].c_str(), NULL, 0);
+      Memory *m = new Memory();
+      m->endian = cpu_list[cpu].default_endian;
+      put_bytes(m, a, unhex(f[1]));
+      Decoded d = decode(fn, cpu, m, a);
+      delete m;
+      fprintf(out, "%s[%d,\"%s\"]", i == 0 ? "" : ",", d.len, json_escape(d.text).c_str());
+    }
+    fprintf(out, "],");
+  }
   else if (kind == "asm")
   {
     // several texts (one per line), each assembled alone at the same address
